@@ -238,6 +238,13 @@ def wrapArray (v : Option ItemC) (rules : Option ArrayRules) : Option FieldC :=
              unique := rules.bind (·.uniqueItems), items := v } }
   else none
 
+/-- 5d… (map fix): like arrays, the rules of the map and of its values go on the map field -/
+def wrapMap (v : Option ItemC) (rules : Option MapRules) : Option FieldC :=
+  if v.isSome || rules.isSome then
+    some { required := none,
+           typ := .map { minPairs := rules.bind (·.minPairs), maxPairs := rules.bind (·.maxPairs), values := v } }
+  else none
+
 def setRequired (c : Option FieldC) : Option FieldC :=
   match c with
   | none => some { required := some true, typ := .item .none }
@@ -255,6 +262,7 @@ def fieldValidate (schema : FieldSchema) (v : Option ItemC) (required : Bool) : 
     match schema with
     | .single _ => v.map fun c => { required := none, typ := .item c }
     | .array _ rules _ => wrapArray v rules
+    | .map _ rules _ => wrapMap v rules
   if required then setRequired base else base
 
 /-- `(j5.ext.v1.field)`: for an array the `array` annotation replaces the item's -/
@@ -262,20 +270,24 @@ def fieldJ5 (schema : FieldSchema) (item : Option J5Ext) : Option J5Ext :=
   match schema with
   | .single _ => item
   | .array _ _ sf => some (.array sf)
+  | .map _ _ sf => some (.map sf)
 
 def writeField (p : Property) : Outcome Annot :=
   match buildField p.schema.item with
   | .err t => .err t
   | .panic w => .panic w
   | .ok a =>
-    -- even if not explicitly set, a primary key is required
-    let required := p.required || psmPrimaryKey a.psmKey
+    -- even if not explicitly set, a primary key is required (`(j5.ext.v1.key)` of the field itself:
+    -- for a map that annotation sits on the entry's value field and is not consulted)
+    let required := p.required || (!p.schema.isMap && psmPrimaryKey a.psmKey)
     if p.explicitlyOptional && required then .err "cannot be both required and optional"
     else .ok {
       jsonName := p.name, number := p.number, description := p.description,
-      kind := a.kind, repeated := p.schema.isArray, proto3Optional := p.explicitlyOptional,
+      kind := a.kind, repeated := p.schema.isArray, isMap := p.schema.isMap,
+      proto3Optional := p.explicitlyOptional,
       validate := fieldValidate p.schema a.validate required, j5 := fieldJ5 p.schema a.j5,
-      list := a.list, psmKey := a.psmKey }
+      -- the value's list rules are written on the entry's value field, where nothing reads them
+      list := if p.schema.isMap then none else a.list, psmKey := a.psmKey }
 
 /-- C12's view of the compiler: the emitted `(buf.validate.field)` -/
 def compileRules (p : Property) : Outcome (Option FieldC) :=
